@@ -189,4 +189,14 @@ def run(ctx):
             spawn_g = [(hir.fmt(x[1], 60), x[2]) for x in (hir.guards_of(n, body, sym) or []) if x[0] == "if"]
     ctx.check("C13.A5", "timer-armed-iff-budget-and-not-infinite", ("!infinite", True) in spawn_g and any(t.startswith("let(v1::Some, time") for t, p in spawn_g),
               fn=GO, file=fn["file"], what="the timer must be armed exactly when a budget exists and `infinite` was not given", found=spawn_g)
+    # A6: the budget is *enforced*: the flag the timer clears is observed at every interior node and an abort unwinds at once
+    from . import p07
+    before, nv = len(ctx.instances), len(ctx.violations)
+    p07.q1(ctx, F)
+    p07.q2(ctx, F)
+    for i in ctx.instances[before:]:
+        i["rule"] = "C13.A6(" + i["rule"] + ")"
+    for v in ctx.violations[nv:]:
+        v["rule"] = "C13.A6(" + v["rule"] + ")"
+        v["key"] = "C13.A6|" + v["key"]
     ctx.assume("wall-clock behaviour (sleep overshoot, scheduling of the search thread) is outside a static decision")
